@@ -109,9 +109,10 @@ func (rt *runtime) enterFunctionScope(outer stasher, this Value) *fnStash {
 func (rt *runtime) putValue(reference referencer, value Value) {
 	name := reference.putValue(value)
 	if name != "" {
-		// Why? -- If reference.base == nil
-		// strict = false
-		rt.globalObject.defineProperty(name, value, 0o111, false)
+		// The reference was unresolvable: [[Put]] on the global object, not strict (8.7.2 step 3).
+		// The property may exist by now (the right-hand side ran in between): a setter is called,
+		// a read-only property stays as it is.
+		rt.globalObject.put(name, value, false)
 	}
 }
 
